@@ -91,7 +91,8 @@ fn main() {
             let maxstream: usize = get("maxstream", "4").parse().unwrap();
             let sizes: Vec<usize> =
                 get("sizes", "1,2,3").split(',').map(|x| x.parse().unwrap()).collect();
-            let st = stream::run(&out, shards, &fam, seed, scale, faults, maxstream, &sizes);
+            let rf = get("replay-file", "");
+            let st = stream::run(&out, shards, &fam, seed, scale, faults, maxstream, &sizes, &rf);
             println!("{{\"contexts\":{},\"events\":{}}}", st.contexts, st.events);
         }
         "packed" => {
